@@ -340,3 +340,159 @@ Qed.
 (* what the monitors read off the tracker is what the model handed over *)
 Lemma offered_args_final T evs : offered_args (trk_run trk0 evs) = off (gh (final T evs)).
 Proof. unfold offered_args, off. destruct (final_TRK T evs) as (_ & _ & E). rewrite E. reflexivity. Qed.
+
+(* ---- what holds at every event.set(), with the tracker's open set ------------------------------------- *)
+Lemma put_PO3 k s p kd k' :
+  is_dead s = false -> existsb (Nat.eqb p) (seen s) = false -> OT k s ->
+  k_open k' = match kd with Aw => k_open k ++ [(p, true)] | Async => k_open k ++ [(p, false)] | _ => k_open k end ->
+  PO3 (fun n => is_open n k') (fun n => is_single n k') (seen s ++ [p])
+      (gh_tie (gh_offer (gh s) (map (fun x => (p, x)) (imm_args kd)) (now s)) (tie_now s))
+      (cur_ins (dm s)) ((q s ++ [mk_prod p kd]) ++ dprods (dm s)).
+Proof.
+  intros Hd Ef HO Ek. destruct (HO Hd) as [[A B] C]. unfold prods in *.
+  split; [split|].
+  - eapply Core_permP; [apply perm_mid|]. apply Core_put. exact A.
+  - eapply Pids_perm; [apply perm_mid|]. apply Pids_put; [exact B|exact Ef].
+  - intros n. destruct (C n) as [C1 C2]. rewrite !has_open_app, !has_sopen_app in *.
+    unfold has_open at 2, has_sopen at 2. cbn [existsb]. rewrite pid_mk_prod, !orb_false_r.
+    unfold is_open, is_single. rewrite Ek.
+    assert (Hsw : forall a b c, a || b || c = (a || c) || b) by (intros [] [] []; reflexivity).
+    rewrite (Hsw (has_open n (q s))), (Hsw (has_sopen n (q s))), C1, C2.
+    unfold is_open, is_single.
+    destruct kd; cbn [mk_prod accepts closed single negb andb]; rewrite ?existsb_app; cbn [existsb fst snd];
+      rewrite ?andb_false_r, ?andb_true_r, ?orb_false_r; auto.
+Qed.
+
+Lemma feed_PO3 k s n a k' :
+  is_dead s = false -> open_here s n = true -> OT k s ->
+  (forall m, is_open m k' = if m =? n then open_after a (is_open n k) (is_single n k) else is_open m k) ->
+  (forall m, is_single m k' = if m =? n then sopen_after a (is_single n k) else is_single m k) ->
+  PO3 (fun m => is_open m k') (fun m => is_single m k') (seen s)
+      (gh_offer1 (gh s) (map (fun x => (n, x)) (arg_of a))) (cur_ins (dm s)) (map (feed_if n a) (prods s)).
+Proof.
+  intros Hd Eo HO E1 E2. destruct (HO Hd) as [[A B] C]. split; [split|].
+  - apply Core_feed; [exact A|apply open_here_ex; exact Eo].
+  - apply Pids_feed; [exact B|apply open_here_ex; exact Eo].
+  - intros m. destruct (feed_open n a (prods s) (pd_nodup _ _ _ B) m) as [F1 F2]. rewrite F1, F2.
+    rewrite E1, E2. destruct (C n) as [Cn1 Cn2]. destruct (C m) as [Cm1 Cm2]. rewrite Cn1, Cn2, Cm1, Cm2. auto.
+Qed.
+
+Section InstR.
+  Variables O O1 : nat -> bool.
+  Let Hperm := P3_perm O O1.
+  Let Hload := P3_load O O1.
+  Let Hext := P3_ext O O1.
+  Let Hins := P3_ins O O1.
+  Lemma on_put_rets3 s : is_dead s = false -> OS O O1 s -> rets_left (PO3 O O1) (waiters s) (on_put s).
+  Proof. apply on_put_rets; assumption. Qed.
+  Lemma after_gather_rets3 s ins g :
+    PO3 O O1 (seen s) (gh s) ins (q s ++ got_of g) -> rets_ok (PO3 O O1) (waiters s) (map pid (q s)) (after_gather s ins g).
+  Proof. apply after_gather_rets; assumption. Qed.
+  Lemma load_one_rets3 s ins p : PO3 O O1 (seen s) (gh s) ins (q s ++ [p]) -> rets_left (PO3 O O1) (waiters s) (load_one s ins p).
+  Proof. apply load_one_rets; assumption. Qed.
+  Lemma do_advance_rets3 s dt : is_dead s = false -> OS O O1 s -> rets_ok (PO3 O O1) (waiters s) (map pid (q s)) (do_advance s dt).
+  Proof. apply do_advance_rets; assumption. Qed.
+  Lemma do_wait_rets3 s w c : is_dead s = false -> OS O O1 s -> rets_step (PO3 O O1) s (Wait w c) (do_wait s w c).
+  Proof. apply do_wait_rets; assumption. Qed.
+  Lemma do_fn_end_rets3 s ok fc : is_dead s = false -> OS O O1 s -> rets_ok (PO3 O O1) (waiters s) (map pid (q s)) (do_fn_end s ok fc).
+  Proof.
+    apply (do_fn_end_rets (PO3 O O1) true); try assumption.
+    - apply P3_deliver.
+    - intros _. apply P3_deliver_keep.
+    - reflexivity.
+  Qed.
+End InstR.
+
+Lemma PO3_ext O O1 O' O1' sn g ins ps :
+  (forall n, O n = O' n) -> (forall n, O1 n = O1' n) -> PO3 O O1 sn g ins ps -> PO3 O' O1' sn g ins ps.
+Proof. intros E1 E2 [A B]. split; [exact A|]. intros n. destruct (B n). rewrite <- E1, <- E2. auto. Qed.
+
+Lemma rets_step_ext (P P' : list nat -> ghost -> list nat -> list prod -> Prop) s e r :
+  (forall sn g ps, P sn g [] ps -> P' sn g [] ps) -> rets_step P s e r -> rets_step P' s e r.
+Proof.
+  intros H HR w t n Hin. destruct (HR w t n Hin) as [(sr & w0 & A & B)|C]; [left; exists sr, w0; split; [apply H, A|exact B]|right; exact C].
+Qed.
+
+Lemma step_rets3 k s e :
+  is_dead s = false -> TL k s -> OT k s ->
+  rets_step (PO3 (fun n => is_open n (trk_ev k e)) (fun n => is_single n (trk_ev k e))) s e (step s e).
+Proof.
+  intros Hd (K1 & K2 & K3 & K4) HO. unfold trk_ev. rewrite K2, Hd. unfold step. rewrite Hd.
+  set (O := fun n => is_open n k) in *. set (O1 := fun n => is_single n k) in *.
+  assert (Same : forall k' r, k_open k' = k_open k -> rets_step (PO3 O O1) s e r ->
+            rets_step (PO3 (fun n => is_open n k') (fun n => is_single n k')) s e r).
+  { intros k' r E. apply rets_step_ext. intros sn g ps. apply PO3_ext; intros n; unfold O, O1, is_open, is_single; rewrite E; reflexivity. }
+  assert (Hopen : forall n, open_here s n = O n) by (intros n; apply (OT_open k s n Hd HO)).
+  assert (PutCase : forall p kd c k',
+            k_open k' = (match kd with Aw => k_open k ++ [(p, true)] | Async => k_open k ++ [(p, false)] | _ => k_open k end) ->
+            existsb (Nat.eqb p) (seen s) = false ->
+            rets_step (PO3 (fun n => is_open n k') (fun n => is_single n k')) s e (do_put s p kd c)).
+  { intros p kd c k' Ek Ef. unfold do_put. rewrite Ef.
+    apply rets_ok_step. apply rets_left_ok.
+    match goal with |- rets_left _ _ (on_put ?x) => assert (Hw : waiters x = waiters s) by (destruct c; reflexivity); rewrite <- Hw end.
+    apply on_put_rets3; [destruct c; exact Hd|]. intros _. pose proof (put_PO3 k s p kd k' Hd Ef HO Ek) as HC. unfold prods.
+    destruct c; exact HC. }
+  assert (FeedCase : forall n a k',
+            (forall m, is_open m k' = if open_here s n then (if m =? n then open_after a (O n) (O1 n) else O m) else O m) ->
+            (forall m, is_single m k' = if open_here s n then (if m =? n then sopen_after a (O1 n) else O1 m) else O1 m) ->
+            rets_step (PO3 (fun m => is_open m k') (fun m => is_single m k')) s e (do_feed s n a)).
+  { intros n a k' E1 E2. unfold do_feed. destruct (open_here s n) eqn:Eo; cbn [negb]; [|intros w t n0 []].
+    set (O' := fun m => is_open m k'). set (O1' := fun m => is_single m k').
+    pose proof (feed_PO3 k s n a k' Hd Eo HO E1 E2) as HC. fold O' O1' in HC.
+    apply rets_ok_step.
+    unfold prods in HC. rewrite map_app in HC.
+    assert (Hpq : map pid (map (feed_if n a) (q s)) = map pid (q s)) by (rewrite map_map; apply map_ext; intros p0; apply pid_feed_if).
+    destruct (dm s) eqn:Ed; cbn [cur_ins dprods] in HC; try (intros w t n0 []).
+    - destruct (load_all (map (feed_if n a) ld)) as [[rem ys] fs] eqn:El.
+      rewrite map_app in HC.
+      assert (Hg : map (feed_if n a) (got_of g) = got_of (feed_get n a g)) by (destruct g; reflexivity).
+      rewrite Hg in HC.
+      assert (HC1 : PO3 O' O1' (seen s) (gh_load (gh_offer1 (gh s) (map (fun x => (n, x)) (arg_of a))) ys fs) (set_addl ys ins)
+                         ((map (feed_if n a) (q s) ++ got_of (feed_get n a g)) ++ rem)).
+      { eapply P3_load; [|exact El]. eapply P3_perm; [|exact HC]. rewrite app_assoc. apply perm_mid. }
+      destruct rem as [|p0 rem]; [|intros w t n0 []].
+      match goal with |- rets_ok _ _ _ (after_gather ?x ?i ?gg) => pose proof (after_gather_rets3 O' O1' x i gg) as Q end.
+      cbn [load_gh gh set_gh set_q q seen waiters] in Q. rewrite Hpq in Q. apply Q. rewrite app_nil_r in HC1. exact HC1.
+    - destruct ((pid p =? n) && accepts p) eqn:E; [|intros w t n0 []].
+      apply rets_left_ok.
+      match goal with |- rets_left _ _ (load_one ?x ?i ?pp) => pose proof (load_one_rets3 O' O1' x i pp) as Q end.
+      cbn [gh set_gh set_q q seen waiters] in Q. apply Q.
+      cbn [map] in HC. unfold feed_if in HC at 2. rewrite E in HC. exact HC. }
+  destruct e.
+  - rewrite K3, mem_existsb. destruct (existsb (Nat.eqb p) (seen s)) eqn:Ef.
+    + unfold do_put. rewrite Ef. intros w t n [].
+    + apply PutCase; [reflexivity|exact Ef].
+  - (* PYield *) apply FeedCase; intros m; rewrite Hopen; unfold O, O1; cbv beta.
+    + destruct (is_open p k) eqn:Eo; [|reflexivity]. unfold is_open at 1. cbn [k_open].
+      destruct (is_single p k) eqn:Es.
+      * rewrite (proj1 (close_open p k m)). destruct (m =? p); [unfold open_after; rewrite ?Eo, ?Es; reflexivity|reflexivity].
+      * fold (is_open m k). destruct (m =? p) eqn:Em; [apply Nat.eqb_eq in Em; subst m; unfold open_after; rewrite ?Eo, ?Es; reflexivity|reflexivity].
+    + destruct (is_open p k) eqn:Eo; [|reflexivity]. unfold is_single at 1. cbn [k_open].
+      destruct (is_single p k) eqn:Es.
+      * rewrite (proj2 (close_open p k m)). destruct (m =? p); reflexivity.
+      * fold (is_single m k). destruct (m =? p) eqn:Em; [apply Nat.eqb_eq in Em; subst m; cbn; exact Es|reflexivity].
+  - (* PFail *) apply FeedCase; intros m; rewrite Hopen; unfold O, O1; cbv beta.
+    + destruct (is_open p k) eqn:Eo; [|reflexivity]. unfold is_open at 1. cbn [k_open].
+      rewrite (proj1 (close_open p k m)). destruct (m =? p); [unfold open_after; rewrite andb_false_r; reflexivity|reflexivity].
+    + destruct (is_open p k) eqn:Eo; [|reflexivity]. unfold is_single at 1. cbn [k_open].
+      rewrite (proj2 (close_open p k m)). destruct (m =? p); reflexivity.
+  - (* PEnd *) apply FeedCase; intros m; rewrite Hopen; unfold O, O1; cbv beta.
+    + destruct (is_open p k) eqn:Eo; cbn [andb]; [|reflexivity]. destruct (is_single p k) eqn:Es; cbn [negb].
+      * destruct (m =? p) eqn:Em; [apply Nat.eqb_eq in Em; subst m; unfold open_after; rewrite ?Eo, ?Es; reflexivity|reflexivity].
+      * unfold is_open at 1. cbn [k_open]. rewrite (proj1 (close_open p k m)).
+        destruct (m =? p); [unfold open_after; rewrite ?Eo, ?Es; reflexivity|reflexivity].
+    + destruct (is_open p k) eqn:Eo; cbn [andb]; [|reflexivity]. destruct (is_single p k) eqn:Es; cbn [negb].
+      * destruct (m =? p) eqn:Em; [apply Nat.eqb_eq in Em; subst m; cbn; exact Es|reflexivity].
+      * unfold is_single at 1. cbn [k_open]. rewrite (proj2 (close_open p k m)).
+        destruct (m =? p) eqn:Em; [cbn; rewrite ?Es; reflexivity|reflexivity].
+  - apply Same; [reflexivity|]. apply rets_ok_step, do_advance_rets3; auto.
+  - apply Same; [destruct (mem w (k_wseen k)); reflexivity|]. apply do_wait_rets3; auto.
+  - apply Same; [reflexivity|]. apply rets_ok_step, do_fn_end_rets3; auto.
+  - apply Same; [reflexivity|]. apply rets_ok_step, do_fn_end_rets3; auto.
+  - intros w t n [H|[]]. discriminate.
+  - intros w t n [].
+  - rewrite K3, mem_existsb. destruct (existsb (Nat.eqb p) (seen s)) eqn:Ef.
+    + unfold do_put. rewrite Ef. intros w t n [].
+    + apply PutCase; [reflexivity|exact Ef].
+  - apply Same; [reflexivity|]. apply rets_ok_step, do_fn_end_rets3; auto.
+Qed.
